@@ -990,6 +990,180 @@ func (e *emitter) c10EffectLists(s *source) {
 	}, s)
 }
 
+// ---------------------------------------------------------------- round 5e: WHERE the per-call state comes from (typed)
+//
+// Every piece of state of one call (panic channel, options, output / collector / done, retErr, closeOnce, the
+// sync.Once of cancel) must be allocated BY that call: the model starts every call from `init c` (empty panic buffer, no
+// recorded error, nothing closed).  A pooled / package-level / recycled object (seeded C10-9: the onceChan from a
+// sync.Pool) makes the state of an earlier call visible in a later one.
+
+const c10AllocDecl = `/-- where a piece of per-call state comes from -/
+inductive Alloc
+  | makeChan (cap : String)           -- make(chan T[, cap]) in the function itself
+  | localVar (ty : String)            -- var x T (zero value, in the function itself)
+  | newOf (ty : String)               -- new(T)
+  | addrOfLiteral (fields : List (String × String))  -- &T{field: value, …} (a fresh literal)
+  | freshCall (fn : String)           -- x := fn(…), fn tied separately
+  | other (src : String)
+  deriving DecidableEq, Repr
+
+/-- a package-level variable: an error sentinel built by errors.New (immutable), or anything else (shared state) -/
+inductive PkgVar
+  | sentinel (name : String)
+  | shared (name : String) (src : String)
+  deriving DecidableEq, Repr
+
+`
+
+func (s *source) c10AllocOf(x ast.Expr) string {
+	switch n := x.(type) {
+	case *ast.CallExpr:
+		fn := s.src(n.Fun)
+		switch {
+		case fn == "make" && len(n.Args) >= 1:
+			if _, ok := n.Args[0].(*ast.ChanType); ok {
+				c := "0"
+				if len(n.Args) == 2 {
+					c = s.src(n.Args[1])
+				}
+				return ".makeChan " + leanStr(c)
+			}
+		case fn == "new" && len(n.Args) == 1:
+			return ".newOf " + leanStr(s.src(n.Args[0]))
+		default:
+			if id, ok := n.Fun.(*ast.Ident); ok {
+				return ".freshCall " + leanStr(id.Name)
+			}
+		}
+	case *ast.UnaryExpr:
+		if cl, ok := n.X.(*ast.CompositeLit); ok && n.Op == token.AND {
+			var fs []string
+			for _, el := range cl.Elts {
+				kv, ok := el.(*ast.KeyValueExpr)
+				if !ok {
+					return ".other " + leanStr(s.src(x))
+				}
+				fs = append(fs, "("+leanStr(s.src(kv.Key))+", "+leanStr(s.src(kv.Value))+")")
+			}
+			return ".addrOfLiteral [" + strings.Join(fs, ", ") + "]"
+		}
+	}
+	return ".other " + leanStr(s.src(x))
+}
+
+// c10StateOf: the allocation site of the named local of a function (`x := …`, `var x T`), first definition.
+func (s *source) c10StateOf(fd *ast.FuncDecl, name string) string {
+	out := ""
+	ast.Inspect(fd.Body, func(n ast.Node) bool {
+		if out != "" {
+			return false
+		}
+		switch x := n.(type) {
+		case *ast.AssignStmt:
+			if x.Tok == token.DEFINE && len(x.Lhs) == len(x.Rhs) {
+				for i, l := range x.Lhs {
+					if s.src(l) == name {
+						out = s.c10AllocOf(x.Rhs[i])
+					}
+				}
+			}
+		case *ast.DeclStmt:
+			if gd, ok := x.Decl.(*ast.GenDecl); ok && gd.Tok == token.VAR {
+				for _, sp := range gd.Specs {
+					vs := sp.(*ast.ValueSpec)
+					for i, nm := range vs.Names {
+						if nm.Name == name {
+							if len(vs.Values) > i {
+								out = s.c10AllocOf(vs.Values[i])
+							} else {
+								out = ".localVar " + leanStr(s.src(vs.Type))
+							}
+						}
+					}
+				}
+			}
+		}
+		return true
+	})
+	if out == "" {
+		out = ".other \"undefined\""
+	}
+	return out
+}
+
+func (e *emitter) c10AllocSites(s *source) {
+	const f = "core/mr/mapreduce.go"
+	e.printf("%s", c10AllocDecl)
+	site := func(lean, doc, fn string, names ...string) {
+		e.c10Def(lean, doc, "", "List (String × Alloc)", func() string {
+			fd := c10Func(s, f, fn)
+			var out []string
+			for _, nm := range names {
+				out = append(out, "("+leanStr(nm)+", "+s.c10StateOf(fd, nm)+")")
+			}
+			return "[" + strings.Join(out, ", ") + "]"
+		})
+	}
+	site("coreState", "the state of one call made in `mapReduceWithPanicChan`", "mapReduceWithPanicChan", "options", "output", "collector", "done", "retErr", "closeOnce")
+	site("mapReduceState", "`MapReduce`: its panic channel and source", "MapReduce", "panicChan", "source")
+	site("mapReduceChanState", "`MapReduceChan`: its panic channel", "MapReduceChan", "panicChan")
+	site("forEachState", "`ForEach`: its state", "ForEach", "options", "panicChan", "source", "collector", "done")
+	site("executeMappersState", "`executeMappers`: pool", "executeMappers", "pool")
+	site("buildSourceState", "`buildSource`", "buildSource", "source")
+	site("buildOptionsState", "`buildOptions`", "buildOptions", "options")
+	site("onceState", "`once`", "once", "once")
+	e.c10Def("newOnceChanAlloc", "what `newOnceChan` returns", "", "Alloc", func() string {
+		fd := c10Func(s, f, "newOnceChan")
+		if len(fd.Body.List) != 1 {
+			c10Failf("one return statement expected")
+		}
+		r, ok := fd.Body.List[0].(*ast.ReturnStmt)
+		if !ok || len(r.Results) != 1 {
+			c10Failf("return of one value expected")
+		}
+		return s.c10AllocOf(r.Results[0])
+	})
+	e.c10Def("newOptionsAlloc", "what `newOptions` returns", "", "Alloc", func() string {
+		fd := c10Func(s, f, "newOptions")
+		if len(fd.Body.List) != 1 {
+			c10Failf("one return statement expected")
+		}
+		r, ok := fd.Body.List[0].(*ast.ReturnStmt)
+		if !ok || len(r.Results) != 1 {
+			c10Failf("return of one value expected")
+		}
+		return s.c10AllocOf(r.Results[0])
+	})
+	e.c10Def("packageState", "the package-level variables of core/mr/mapreduce.go", "", "List PkgVar", func() string {
+		var out []string
+		file := s.file(f)
+		if file == nil {
+			c10Failf("file not found")
+		}
+		for _, d := range file.Decls {
+			gd, ok := d.(*ast.GenDecl)
+			if !ok || gd.Tok != token.VAR {
+				continue
+			}
+			for _, sp := range gd.Specs {
+				vs := sp.(*ast.ValueSpec)
+				for i, nm := range vs.Names {
+					src := ""
+					if len(vs.Values) > i {
+						src = s.src(vs.Values[i])
+						if c, ok := vs.Values[i].(*ast.CallExpr); ok && s.src(c.Fun) == "errors.New" {
+							out = append(out, ".sentinel "+leanStr(nm.Name))
+							continue
+						}
+					}
+					out = append(out, ".shared "+leanStr(nm.Name)+" "+leanStr(src))
+				}
+			}
+		}
+		return "[" + strings.Join(out, ", ") + "]"
+	})
+}
+
 func c10Func0(s *source, rel, name string) ast.Node {
 	fd := s.findFunc(rel, name)
 	if fd == nil {
@@ -1063,5 +1237,6 @@ func init() {
 		e.c10CallArgs(s, f, "executeMappers", "wg.Add", "dispatcherWgAddArgs")
 		e.c10Semantic(s)
 		e.c10EffectLists(s)
+		e.c10AllocSites(s)
 	})
 }
